@@ -402,6 +402,47 @@ pub fn run(rep: &mut Report, tier: &str)
         for h in hs { let _ = h.join(); }
         splits = splits_c.load(Ordering::SeqCst);
     }
+    // bundle sections in depth: every target section of <= 7 lines over three indentation levels
+    // (repeated directories that agree or differ at any level), wrapped into a complete rule
+    let mut sections = 0u64;
+    {
+        const BT: [&str; 6] = ["a", "b", "\ta", "\tb", "\t\ta", "\t\tb"];
+        let max_sec = if thorough { 8 } else { 7 };
+        for len in 1..=max_sec
+        {
+            let total = (BT.len() as u64).pow(len as u32);
+            let next = Arc::new(AtomicU64::new(0));
+            let cnt = Arc::new(AtomicU64::new(0));
+            let mut hs = vec![];
+            for _ in 0..threads
+            {
+                let next = next.clone();
+                let found = found.clone();
+                let cnt = cnt.clone();
+                let complete = complete.clone();
+                hs.push(std::thread::spawn(move ||
+                {
+                    loop
+                    {
+                        let start = next.fetch_add(2048, Ordering::SeqCst);
+                        if start >= total { break; }
+                        if Instant::now() >= deadline { complete.store(false, Ordering::SeqCst); break; }
+                        for k in start..(start + 2048).min(total)
+                        {
+                            let mut kk = k;
+                            let mut lines: Vec<&str> = vec![];
+                            for _ in 0..len { lines.push(BT[(kk % 6) as usize]); kk /= 6; }
+                            let text = format!("{}\n:\ns\n:\nc\n:\n", lines.join("\n"));
+                            cnt.fetch_add(1, Ordering::Relaxed);
+                            if let Some(msg) = check_text(&text) { record(&found, format!("bundle section: {}", msg), &text); }
+                        }
+                    }
+                }));
+            }
+            for h in hs { let _ = h.join(); }
+            sections += cnt.load(Ordering::SeqCst);
+        }
+    }
     // rendered rule sets under formatting choices, and every single-edit corruption of them
     let mut rendered = 0u64;
     for base in rendered_bases()
@@ -426,14 +467,15 @@ pub fn run(rep: &mut Report, tier: &str)
     }
     let n = count.load(Ordering::SeqCst);
     rep.set("states", json!(n));
-    rep.set("transitions", json!(n + splits + rendered));
-    rep.set("traces_validated_against_impl", json!(n + splits + rendered));
-    rep.set("evaluations", json!(n + splits + rendered));
+    rep.set("transitions", json!(n + splits + rendered + sections));
+    rep.set("traces_validated_against_impl", json!(n + splits + rendered + sections));
+    rep.set("evaluations", json!(n + splits + rendered + sections));
     rep.set("distinct_nontrivial", json!(ok_count.load(Ordering::SeqCst)));
     rep.set("texts_with_at_least_one_rule", json!(ok_count.load(Ordering::SeqCst)));
     rep.set("reference_outcome_classes", json!(*err_kinds.lock().unwrap()));
     rep.set("two_file_splits", json!(splits));
     rep.set("rendered_and_corrupted_texts", json!(rendered));
+    rep.set("bundle_sections_three_levels", json!(sections));
     rep.set("per_length", json!(per));
     rep.set("exhaustive", json!(complete.load(Ordering::SeqCst)));
     rep.set("rule", json!(format!("every sequence of <= {} lines over {:?}, with and without final newline; every split of every {}-line sequence into two files; rendered rule sets and all their single-line edits", max_lines, ALPHABET, split_len)));
@@ -465,6 +507,7 @@ fn rendered_bases() -> Vec<String>
         "b\na\nb\n:\nz\n\ty\n\tx\nz\n\tx\n\ty\n:\ncmd\n:\n".to_string(),
         " lead\ntrail \n\u{a0}nbsp\n:\n\rcr\nd\n\t e\n:\n  spaced command \n:\n".to_string(),
         "t\n:\ns\n:\n:\n".to_string(),
+        "out\n\tlib\n\t\ta.o\n\t\tb.o\nout\n\tlib\n\t\tb.o\n\t\ta.o\n\tbin\n\t\tx\n:\nsrc\n\ta.c\n:\ncc\n:\n".to_string(),
     ]
 }
 
